@@ -605,3 +605,86 @@ Example real_model_waiter_of_panicked_leader_gets_nil :
   map (fun th => map (fun r => (rval r, rerr r, rfresh r)) (tres th)) (threads (exec rc_scripts rc_sched))
   = [[(101%Z, 0%Z, true); (vnil, epanic, true)]; [(vnil, 0%Z, false)]].
 Proof. vm_compute. reflexivity. Qed.
+
+(* (n) SingleFlight with Forget(key) and a successor chain (seeded change C07-5).  Forget marks the call in
+   flight as forgotten; the next caller does not join it but registers a SUCCESSOR call in its place, which
+   waits for the forgotten call to finish before running its function (so by design executions never
+   overlap).  The untouched clean-up still deletes BY KEY: when the forgotten call finishes it removes the
+   successor's entry, and a later caller starts an execution next to the successor's.
+   Forget is an action of the LTS: schedule element [forget_actor] = "Forget(key 1) on the SingleFlight".
+   Extra state: the set of forgotten objects and the predecessor of a successor. *)
+Record fstate := mkF { fst_s : state; fforgot : list nat; fprev : list (nat * nat) }.
+
+Definition forget_actor : nat := 99.
+Definition forget_key : Z := 1%Z.
+
+Definition prev_of (x : fstate) (c : nat) : option nat :=
+  match find (fun p => Nat.eqb (fst p) c) (fprev x) with Some p => Some (snd p) | None => None end.
+
+Definition forget_step (x : fstate) (t : nat) : option fstate :=
+  let s := fst_s x in
+  if Nat.eqb t forget_actor then
+    match calls s GSF forget_key with
+    | Some c => Some (mkF (mkState (S (now s)) (calls s) (heap s) (nextc s) (resources s) (ncreated s) (threads s))
+                          (c :: fforgot x) (fprev x))
+    | None => Some (mkF (mkState (S (now s)) (calls s) (heap s) (nextc s) (resources s) (ncreated s) (threads s))
+                        (fforgot x) (fprev x))
+    end
+  else
+  let keep s' := Some (mkF s' (fforgot x) (fprev x)) in
+  match nth_error (threads s) t with
+  | Some th =>
+    match cur_op th with
+    | Some o =>
+      let T := S (now s) in
+      let put th' := upd_nth (threads s) t th' in
+      match ogrp o, tpc th with
+      | GSF, PCalled =>
+        match calls s GSF (okey o) with
+        | Some c =>
+          if existsb (Nat.eqb c) (fforgot x) then
+            (* take the forgotten call's place in the map; makeCall will wait for it *)
+            let c' := nextc s in
+            Some (mkF (mkState T (set_calls (calls s) GSF (okey o) (Some c'))
+                         (fupd (heap s) c' (mkCall GSF (okey o) (t, topi th) (tinv th) None false None))
+                         (S c') (resources s) (ncreated s)
+                         (put (mkThread (PLead c') (tscript th) (topi th) (tinv th) (now s) (truns th) (tres th))))
+                      (fforgot x) ((c', c) :: fprev x))
+          else match step s t with Some s' => keep s' | None => None end
+        | None => match step s t with Some s' => keep s' | None => None end
+        end
+      | GSF, PLead c =>
+        (* if c.prev != nil { c.prev.wg.Wait() } *)
+        match prev_of x c with
+        | Some p => if cdone (heap s p) then match step s t with Some s' => keep s' | None => None end else None
+        | None => match step s t with Some s' => keep s' | None => None end
+        end
+      | _, _ => match step s t with Some s' => keep s' | None => None end
+      end
+    | None => None
+    end
+  | None => None
+  end.
+
+Definition fg_scripts : list (list op) := [[mkOp GSF 1 101 0]; [mkOp GSF 1 201 0]; [mkOp GSF 1 301 0]].
+(* Take #1 runs; Forget; caller 1 arrives (successor, waits for #1); #1 returns (its clean-up deletes the
+   successor's entry); the successor runs; caller 2 arrives, finds no entry and runs too *)
+Definition fg_sched : list nat := [0;0;0; 99; 1;1; 0;0;0; 1; 2;2;2].
+
+Theorem forget_successor_unregistered_overlap_refuted :
+  exists scripts sched, 2 <= running GSF 1 (fst_s (run forget_step (mkF (init scripts) [] []) sched)).
+Proof. exists fg_scripts, fg_sched. vm_compute. apply le_n. Qed.
+
+(* steps 1-3 alone are as designed: the successor waits for the forgotten call, no overlap yet *)
+Example forget_successor_waits :
+  let x := run forget_step (mkF (init fg_scripts) [] []) [0;0;0; 99; 1;1; 1] in
+  running GSF 1 (fst_s x) = 1 /\ (match forget_step x 1 with None => true | Some _ => false end) = true.
+Proof. vm_compute. split; reflexivity. Qed.
+
+(* without Forget the variant is the real SingleFlight (and the real model on these arrivals): caller 1 joins
+   and shares 101, caller 2 leads the only execution in progress *)
+Example forget_never_called_is_real :
+  let sch := [0;0;0; 1;1; 0;0;0; 1; 2;2;2] in
+  running GSF 1 (fst_s (run forget_step (mkF (init fg_scripts) [] []) sch)) = 1 /\
+  threads (fst_s (run forget_step (mkF (init fg_scripts) [] []) sch)) = threads (exec fg_scripts sch).
+Proof. vm_compute. split; reflexivity. Qed.
